@@ -457,6 +457,11 @@ func GoBuild(dir, out, pkg string, extra ...string) error {
 
 // BuildGoose builds cmd/goose of /repo's working tree.
 func (r *Run) BuildGoose(extra ...string) (string, error) {
+	// VERIF_GOOSE_BIN substitutes a pre-built binary (used only to measure which statements of
+	// the translator the workloads reach, with a -cover build; registered commands never set it)
+	if b := os.Getenv("VERIF_GOOSE_BIN"); b != "" && len(extra) == 0 {
+		return b, nil
+	}
 	name := "goose"
 	for _, e := range extra {
 		name += strings.ReplaceAll(e, "/", "_")
